@@ -66,14 +66,11 @@ func (p *Parser) Parse(source string) (Node, error) {
 	// Use zero allocation tokenizer for optimal performance
 	tokenizer := GetTokenizer(p.source, 0)
 
-	// Use optimized version for larger templates
-	if len(p.source) > 4096 {
-		// Use the optimized tag detection for large templates
-		p.tokens, err = tokenizer.TokenizeOptimized()
-	} else {
-		// Use regular tokenization for smaller templates
-		p.tokens, err = tokenizer.TokenizeHtmlPreserving()
-	}
+	// Every template is tokenized the same way whatever its length.
+	// TokenizeOptimized, which used to be selected for sources over 4096 bytes, reads
+	// verbatim blocks, tag-like text inside string literals and include/with arguments
+	// differently, so a template changed meaning when it grew past that size.
+	p.tokens, err = tokenizer.TokenizeHtmlPreserving()
 
 	// Apply whitespace control to handle whitespace trimming directives
 	if err == nil {
